@@ -985,6 +985,9 @@ class SmtLibParser(object):
         where `fi = FunctionInterpretation([Symbol('x0', Int)], ITE(GT(Symbol('x0', Int), Int(5)), Real(1), Real(0.5)))`
         """
         mgr = self.env.formula_manager
+        # Like get_script, start from a clean state: bindings left by a
+        # previous (possibly failed) call must not be visible
+        self._reset()
         self.cache.update(self.env.type_manager._custom_types_decl)
         tokens = Tokenizer(script, interactive=self.interactive)
         current = tokens.consume()
@@ -1237,16 +1240,23 @@ class SmtLibParser(object):
                                for k, v in symbols.items()))
         tokens = Tokenizer(script, interactive=self.interactive)
         res = []
-        self.consume_opening(tokens, "<main>")
-        current = tokens.consume()
-        while current != ")":
-            if current != "(":
-                raise PysmtSyntaxError("'(' expected", tokens.pos_info)
-            vname = self.get_expression(tokens)
-            expr = self.get_expression(tokens)
-            self.consume_closing(tokens, current)
-            res.append((vname, expr))
+        saved = dict((k, list(v)) for k, v in self.cache.keys.items())
+        try:
+            self.consume_opening(tokens, "<main>")
             current = tokens.consume()
+            while current != ")":
+                if current != "(":
+                    raise PysmtSyntaxError("'(' expected", tokens.pos_info)
+                vname = self.get_expression(tokens)
+                expr = self.get_expression(tokens)
+                self.consume_closing(tokens, current)
+                res.append((vname, expr))
+                current = tokens.consume()
+        except BaseException:
+            # A reply that cannot be read leaves no binding behind
+            self.cache.keys = saved
+            self.cache.unbind_all(symbols)
+            raise
         self.cache.unbind_all(symbols)
         return res
 
